@@ -40,6 +40,7 @@ type Ev struct {
 	Key  string                 `json:"-"`
 	Val  []byte                 `json:"-"`
 	Del  bool                   `json:"-"` // sset with nil value
+	Names []string              `json:"-"` // list: the directory listing handed to the caller
 }
 
 // Fault describes an injected failure of the call with ordinal Seq.
@@ -150,6 +151,14 @@ func (r *Recorder) Mark(call, op, res string) {
 		return
 	}
 	r.Log = append(r.Log, Ev{Seq: len(r.Log), Src: "api", Call: call, Op: op, Res: res})
+}
+
+func (r *Recorder) setNames(seq int, names []string) {
+	r.mu.Lock()
+	if seq >= 0 && seq < len(r.Log) {
+		r.Log[seq].Names = append([]string(nil), names...)
+	}
+	r.mu.Unlock()
 }
 
 // begin registers a call. It returns the event index, an injected fault (if
